@@ -130,17 +130,27 @@ class FakeNN:
         return type("Sparse", (), {"toarray": lambda self_: A})()
 
 
-def body_membership(ctx, n1, n2, d, k):
+def body_membership(ctx, n1, n2, d, k, rebuild=False):
     M = importlib.import_module("menelaus.partitioners.NNSpacePartitioner")
     s1 = obj_array([[ctx.real(f"a{i}_{j}") for j in range(d)] for i in range(n1)])
     s2 = obj_array([[ctx.real(f"b{i}_{j}") for j in range(d)] for i in range(n2)])
     shim = stubs.NpShim(unique=model_unique)
-    del FakeNN.calls[:]
     with rebind(M, np=shim, NearestNeighbors=FakeNN):
         p = M.NNSpacePartitioner(k)
+        if rebuild:
+            # one partitioner object, two builds: nothing of the earlier pair (sizes exchanged, other rows) may survive;
+            # the solver also chooses duplicates so that both unions have the same number of points (seed C10-8)
+            e1 = obj_array([[ctx.real(f"e{i}_{j}") for j in range(d)] for i in range(n2)])
+            e2 = obj_array([[ctx.real(f"f{i}_{j}") for j in range(d)] for i in range(n1)])
+            p.build(e1, e2)
+            m0 = len(p.D)
+            ctx.witness("rebuilt")
+        del FakeNN.calls[:]
         p.build(s1, s2)
     D = p.D
     m = len(D)
+    if rebuild and m == m0:
+        ctx.witness("same-union-size")
     # the neighbour search is asked for exactly the k nearest neighbours (each point included) of the union
     ctx.prove(len(FakeNN.calls) == 1 and FakeNN.calls[0]["n_neighbors"] == k and FakeNN.calls[0].get("fit") is D
               and FakeNN.calls[0].get("query") is D, "neighbour-search-gets-k-and-the-deduplicated-union")
@@ -298,6 +308,10 @@ def jobs(tier):
                 out.append(Job(f"membership-{n1}x{n2}-d{d}", "checks.c10:body_membership",
                                {"n1": n1, "n2": n2, "d": d, "k": 2 if (n1 + n2) % 2 else n1 + n2},
                                expect=exp, opts={"validate": 1}))
+    for n1, n2, d in ((1, 2, 1), (2, 1, 1)) + (() if q else ((2, 2, 1), (1, 3, 1))):
+        out.append(Job(f"membership-rebuild-{n1}x{n2}-d{d}", "checks.c10:body_membership",
+                       {"n1": n1, "n2": n2, "d": d, "k": 2, "rebuild": True},
+                       expect=("rebuilt", "same-union-size", "with-duplicates"), opts={"validate": 1}))
     for m in (1, 2, 3, 4) if q else (1, 2, 3, 4, 5):
         for v1 in product((0, 1), repeat=m):
             for v2 in product((0, 1), repeat=m):
